@@ -820,7 +820,7 @@ var (
 	encSetterChoices = []*h.CertRef{nil, {Key: "E1", Window: "wide"}, {Key: "E2", Window: "wide"}, {Key: "E1", Window: "narrow"}}
 	sigFieldChoices  = []*h.CertRef{nil, {Key: "S1", Window: "wide"}, {Key: "S2", Window: "wide"}}
 	sigSetterChoices = []*h.CertRef{nil, {Key: "S2", Window: "wide"}, {Key: "S1", Window: "wide"}}
-	reconfFields     = []string{"clock", "clock", "store", "store", "encField", "encField", "encSetter", "validateEnc", "skip", "allowMissing", "acs", "issuer", "audience", "slo", "maxSize", "sigField", "sigSetter", "idpSSO", "idpSLO", "spIssuer", "nameIDFormat", "forceAuthn", "signRequests"}
+	reconfFields     = []string{"clock", "clock", "store", "store", "encField", "encField", "encSetter", "validateEnc", "skip", "allowMissing", "acs", "issuer", "audience", "slo", "maxSize", "sigField", "sigSetter", "idpSSO", "idpSLO", "spIssuer", "nameIDFormat", "forceAuthn", "signRequests", "signAlg", "signC14N"}
 )
 
 func fieldStore(kind string, c h.CertRef) dsig.X509KeyStore {
@@ -956,6 +956,20 @@ func (st *spState) apply(field string, v int, sp *saml2.SAMLServiceProvider) {
 		if sp != nil {
 			sp.SignAuthnRequests = st.cfg.SignRequests
 		}
+	case "signAlg":
+		st.cfg.SignAlg = []string{"", dsig.RSASHA512SignatureMethod, dsig.RSASHA1SignatureMethod}[v%3]
+		if sp != nil {
+			sp.SignAuthnRequestsAlgorithm = st.cfg.SignAlg
+		}
+	case "signC14N":
+		st.cfg.SignC14N = []string{"", h.C14Ns[0], h.C14Ns[2]}[v%3]
+		if sp != nil {
+			if st.cfg.SignC14N == "" {
+				sp.SignAuthnRequestsCanonicalizer = nil
+			} else {
+				sp.SignAuthnRequestsCanonicalizer = h.CanonicalizerFor(st.cfg.SignC14N)
+			}
+		}
 	}
 }
 
@@ -973,7 +987,7 @@ func (st *spState) fresh() *saml2.SAMLServiceProvider {
 }
 
 var signingOps = map[string]bool{"authn-doc": true, "authn-str": true, "logout-req": true, "logout-resp": true, "auth-url": true, "auth-url-redirect": true, "logout-url": true, "auth-post": true, "sign-el": true}
-var keyFields = map[string]bool{"encField": true, "encSetter": true, "sigField": true, "sigSetter": true}
+var keyFields = map[string]bool{"encField": true, "encSetter": true, "sigField": true, "sigSetter": true, "signAlg": true, "signC14N": true}
 
 // c17EncryptedInputs lists the pool entries that carry an EncryptedAssertion.
 func c17EncryptedInputs() []int {
@@ -1017,8 +1031,8 @@ func genReconfFocus(t *rapid.T, focus string) C17Reconf {
 		fields = []string{"encField", "encField", "encSetter", "validateEnc", "clock"}
 		kinds = []string{"validate", "validate", "retrieve", "metadata"}
 	case "sig-keys":
-		fields = []string{"sigField", "sigField", "sigSetter", "clock"}
-		kinds = []string{"metadata", "metadata-slo", "signing-cert", "signing-cert"}
+		fields = []string{"sigField", "sigField", "sigSetter", "clock", "signAlg", "signC14N"}
+		kinds = []string{"metadata", "metadata-slo", "signing-cert", "signing-cert", "authn-str", "logout-req"}
 	case "validation":
 		fields = []string{"clock", "clock", "store", "store", "encField", "encSetter", "validateEnc", "skip", "allowMissing", "acs", "issuer", "audience", "slo", "maxSize"}
 		kinds = []string{"validate", "validate", "retrieve", "retrieve", "logout-validate-req", "logout-validate-resp", "decode-base", "metadata"}
